@@ -23,20 +23,20 @@ theorem memoOK_empty (g : Gate) : MemoOK g ({} : Memo) := by
 
 /-- generic instantiation: a gate whose static check holds keeps its opcodes out of every parse that ran no macro -/
 theorem stays_off (g : Gate) (hstatic : (rulesOK ge DS.Gen.Grammar.rules g (okFor g) && (okFor g)[0]!) = true)
-    (input : Array Nat) (maxCnt : Nat) (cfg : Flags) (fuel : Nat) (hcfg : cfg.get g.flag = g.blocked) :
-    (parseTop (envOf input maxCnt) cfg fuel).1.switched = false →
-    ∀ op ∈ (parseTop (envOf input maxCnt) cfg fuel).1.trace, g.gated op = false := by
+    (input : Array Nat) (maxCnt : Nat) (custom : Nat → Nat) (cfg : Flags) (fuel : Nat) (hcfg : cfg.get g.flag = g.blocked) :
+    (parseTop (envOf input maxCnt custom) cfg fuel).1.switched = false →
+    ∀ op ∈ (parseTop (envOf input maxCnt custom) cfg fuel).1.trace, g.gated op = false := by
   simp only [Bool.and_eq_true] at hstatic
   obtain ⟨hr, h0⟩ := hstatic
-  have hrules : ∀ i, i < (envOf input maxCnt).rules.size → (okFor g)[i]! = true →
-      chk (envOf input maxCnt).genv g (okFor g) ((envOf input maxCnt).rules[i]!) = true := by
+  have hrules : ∀ i, i < (envOf input maxCnt custom).rules.size → (okFor g)[i]! = true →
+      chk (envOf input maxCnt custom).genv g (okFor g) ((envOf input maxCnt custom).rules[i]!) = true := by
     intro i hi hok
     simp only [rulesOK, List.all_eq_true, List.mem_range, Bool.or_eq_true, Bool.not_eq_true'] at hr
     rcases hr i hi with h | h
     · rw [hok] at h; cases h
     · exact h
-  have hsound := (gate_sound (envOf input maxCnt) g (okFor g) hrules fuel).1
-  have hchk0 : chk (envOf input maxCnt).genv g (okFor g) ((envOf input maxCnt).rules[0]!) = true := by
+  have hsound := (gate_sound (envOf input maxCnt custom) g (okFor g) hrules fuel).1
+  have hchk0 : chk (envOf input maxCnt custom).genv g (okFor g) ((envOf input maxCnt custom).rules[0]!) = true := by
     simp only [rulesOK, List.all_eq_true, List.mem_range, Bool.or_eq_true, Bool.not_eq_true'] at hr
     have hsz : 0 < DS.Gen.Grammar.rules.size := by decide +kernel
     rcases hr 0 hsz with h | h
@@ -53,33 +53,33 @@ theorem stays_off (g : Gate) (hstatic : (rulesOK ge DS.Gen.Grammar.rules g (okFo
     exact ⟨hcfg, (by intro f hf; cases hf), (by intro o ho; cases ho), memoOK_empty g, memoOK_empty g⟩
 
 /-- CoC: with EnableDiceCoC off and no macro, no CoC opcode is ever written -/
-theorem coc_stays_off (input : Array Nat) (maxCnt : Nat) (cfg : Flags) (fuel : Nat) (h : cfg.coc = false) :
-    (parseTop (envOf input maxCnt) cfg fuel).1.switched = false →
-    ∀ op ∈ (parseTop (envOf input maxCnt) cfg fuel).1.trace, op ≠ op_typeDiceCocBonus ∧ op ≠ op_typeDiceCocPenalty := by
+theorem coc_stays_off (input : Array Nat) (maxCnt : Nat) (custom : Nat → Nat) (cfg : Flags) (fuel : Nat) (h : cfg.coc = false) :
+    (parseTop (envOf input maxCnt custom) cfg fuel).1.switched = false →
+    ∀ op ∈ (parseTop (envOf input maxCnt custom) cfg fuel).1.trace, op ≠ op_typeDiceCocBonus ∧ op ≠ op_typeDiceCocPenalty := by
   intro hsw op hop
-  have := stays_off cocGate static_coc input maxCnt cfg fuel h hsw op hop
+  have := stays_off cocGate static_coc input maxCnt custom cfg fuel h hsw op hop
   simp only [cocGate, mkGate, List.contains_cons, List.contains_nil, Bool.or_false, Bool.or_eq_false_iff, beq_eq_false_iff_ne] at this
   exact this
 
-theorem wod_stays_off (input : Array Nat) (maxCnt : Nat) (cfg : Flags) (fuel : Nat) (h : cfg.wod = false) :
-    (parseTop (envOf input maxCnt) cfg fuel).1.switched = false →
-    ∀ op ∈ (parseTop (envOf input maxCnt) cfg fuel).1.trace, wodGate.gated op = false :=
-  stays_off wodGate static_wod input maxCnt cfg fuel h
+theorem wod_stays_off (input : Array Nat) (maxCnt : Nat) (custom : Nat → Nat) (cfg : Flags) (fuel : Nat) (h : cfg.wod = false) :
+    (parseTop (envOf input maxCnt custom) cfg fuel).1.switched = false →
+    ∀ op ∈ (parseTop (envOf input maxCnt custom) cfg fuel).1.trace, wodGate.gated op = false :=
+  stays_off wodGate static_wod input maxCnt custom cfg fuel h
 
-theorem fate_stays_off (input : Array Nat) (maxCnt : Nat) (cfg : Flags) (fuel : Nat) (h : cfg.fate = false) :
-    (parseTop (envOf input maxCnt) cfg fuel).1.switched = false →
-    ∀ op ∈ (parseTop (envOf input maxCnt) cfg fuel).1.trace, fateGate.gated op = false :=
-  stays_off fateGate static_fate input maxCnt cfg fuel h
+theorem fate_stays_off (input : Array Nat) (maxCnt : Nat) (custom : Nat → Nat) (cfg : Flags) (fuel : Nat) (h : cfg.fate = false) :
+    (parseTop (envOf input maxCnt custom) cfg fuel).1.switched = false →
+    ∀ op ∈ (parseTop (envOf input maxCnt custom) cfg fuel).1.trace, fateGate.gated op = false :=
+  stays_off fateGate static_fate input maxCnt custom cfg fuel h
 
-theorem dc_stays_off (input : Array Nat) (maxCnt : Nat) (cfg : Flags) (fuel : Nat) (h : cfg.dc = false) :
-    (parseTop (envOf input maxCnt) cfg fuel).1.switched = false →
-    ∀ op ∈ (parseTop (envOf input maxCnt) cfg fuel).1.trace, dcGate.gated op = false :=
-  stays_off dcGate static_dc input maxCnt cfg fuel h
+theorem dc_stays_off (input : Array Nat) (maxCnt : Nat) (custom : Nat → Nat) (cfg : Flags) (fuel : Nat) (h : cfg.dc = false) :
+    (parseTop (envOf input maxCnt custom) cfg fuel).1.switched = false →
+    ∀ op ∈ (parseTop (envOf input maxCnt custom) cfg fuel).1.trace, dcGate.gated op = false :=
+  stays_off dcGate static_dc input maxCnt custom cfg fuel h
 
 /-- statements: with DisableStmts on, no block (if / while), function definition or return is ever compiled -/
-theorem stmts_stay_off (input : Array Nat) (maxCnt : Nat) (cfg : Flags) (fuel : Nat) (h : cfg.disableStmts = true) :
-    (parseTop (envOf input maxCnt) cfg fuel).1.switched = false →
-    ∀ op ∈ (parseTop (envOf input maxCnt) cfg fuel).1.trace, stmtsGate.gated op = false :=
-  stays_off stmtsGate static_stmts input maxCnt cfg fuel h
+theorem stmts_stay_off (input : Array Nat) (maxCnt : Nat) (custom : Nat → Nat) (cfg : Flags) (fuel : Nat) (h : cfg.disableStmts = true) :
+    (parseTop (envOf input maxCnt custom) cfg fuel).1.switched = false →
+    ∀ op ∈ (parseTop (envOf input maxCnt custom) cfg fuel).1.trace, stmtsGate.gated op = false :=
+  stays_off stmtsGate static_stmts input maxCnt custom cfg fuel h
 
 end DS.Props.C16
